@@ -45,6 +45,7 @@ class TwoParty:
         self.b_words = False
         self.helper = None
         self.lazy = {"A": cfg.get("get_a", "eager") == "lazy", "B": cfg.get("get_b", "eager") == "lazy"}
+        self.cancels = {"A": 0, "B": 0}
         self.stop_sending = False
         self.gets_issued = {"A": 0, "B": 0}
         if cfg.get("a_code", "alloc") == "alloc":
@@ -106,6 +107,11 @@ class TwoParty:
                     self.gets_issued[name] += 1
                     app.get_one_message()
                 acts.append((("app", name + ".get"), get))
+            if self.cfg.get("cancel_gets_" + name.lower(), 0) > self.cancels[name] and getattr(app, "open_gets", None) and not app.closed:
+                def giveup(app=app, name=name):
+                    if app.give_up_one_get():
+                        self.cancels[name] += 1
+                acts.append((("app", name + ".get-timeout"), giveup))
         return acts
 
     def drain_actions(self):
